@@ -152,6 +152,11 @@ fn main() {
             let s = checks::sample::run_sector(&lines, a.seed, opt("base_idx").and_then(|s| s.parse().ok()).unwrap_or(0), opt("points").and_then(|s| s.parse().ok()).unwrap_or(3));
             write_summary(&a, &s);
         }
+        "replay-flow" => {
+            let lines = read_lines(a.input.as_ref().unwrap());
+            let s = checks::flow::replay(&lines, a.seed, &opt("trace").expect("--opt trace=FILE"));
+            write_summary(&a, &s);
+        }
         "record-flow" => {
             let lines = read_lines(a.input.as_ref().unwrap());
             let o = checks::flow::FlowOpts {
